@@ -112,7 +112,9 @@ type C struct {
 	ID string
 }
 
-const defaultCaseWatchdog = 120 * time.Second
+// the case-level watchdog only guards against a harness that does not make progress; a hang of the tool is
+// detected by the driver's own per-run watchdog (driver.go)
+const defaultCaseWatchdog = 45 * time.Minute
 
 func (w *W) mine() bool {
 	i := w.idx
@@ -148,6 +150,14 @@ func (w *W) Case(id string, fn func(c *C)) {
 	}
 	c := &C{W: w, ID: id}
 	w.cur = c
+	HangHook = func() {
+		if w.progress != nil {
+			w.progress.Truncate(0)
+			w.progress.WriteAt([]byte("HANG\x00"+id), 0)
+		}
+		fmt.Fprintf(os.Stderr, "worker %d: the command did not return within %s in case %s\n", w.Shard, ToolWatchdog, id)
+		os.Exit(3)
+	}
 	done := make(chan struct{})
 	var pv any
 	var stack []byte
@@ -164,12 +174,8 @@ func (w *W) Case(id string, fn func(c *C)) {
 	select {
 	case <-done:
 	case <-time.After(w.caseWatchdog):
-		if w.progress != nil {
-			w.progress.Truncate(0)
-			w.progress.WriteAt([]byte("HANG\x00"+id), 0)
-		}
-		fmt.Fprintf(os.Stderr, "worker %d: case %s exceeded the %s watchdog\n", w.Shard, id, w.caseWatchdog)
-		os.Exit(3)
+		fmt.Fprintf(os.Stderr, "INTERNAL: worker %d: harness case %s exceeded %s without finishing (no verdict)\n", w.Shard, id, w.caseWatchdog)
+		os.Exit(4)
 	}
 	if pv != nil {
 		// a panic in harness code (tool panics are recovered inside the driver) is an internal error
